@@ -11,20 +11,23 @@ MANIFEST = {
             "source-map name) for the class-name writer. C09_class_exact_rule: for EVERY qualified rule (prelude with blocks/functions "
             "nested to any depth, comments anywhere, any declaration block) the identifier / sign-comment sequence "
             "written equals the specification's (every `.name` in selector context prefixed and signed, nothing else) "
-            "- induction over both walkers. The whole-sheet statement C09_prefix_exact_full was refuted by D13 and then "
-            "by D25; both are repaired and their witnesses satisfy it (C09_former_witnesses_now_exact); it is now neither "
-            "refuted nor proved as a whole. Each run compares the identifier / "
+            "- induction over both walkers. C09_class_exact_sheet: the same for WHOLE SHEETS of every size and depth (rule "
+            "splitting, at-rule preludes and their blocks, rule lists nested in every rule-bearing at-rule), for every option "
+            "set without @import / :host rewriting and every well-shaped tree whose rules are complete - lockstep induction "
+            "of the walker `rules` against the specification `rules_spec`. With the rewrites on, the whole-sheet statement "
+            "was refuted by D13 and then by D25; both are repaired and their witnesses satisfy it "
+            "(C09_former_witnesses_now_exact). Each run compares the identifier / "
             "sign-comment sequence of the re-tokenised implementation output with the specification's for every "
             "well-formed generated sheet outside the known classes, for prefixes none/empty/ASCII/non-ASCII/needing escapes.",
-    "note": "NOT proved: the whole-sheet composition (rule splitting, at-rule preludes, @import conditions, :host) of the "
-            "per-rule theorem - differential (spec vs implementation output on each run; no known class touches "
+    "note": "NOT proved: the whole-sheet statement with an import sign or host conversion configured (@import conditions, "
+            ":host wrappers) - differential (spec vs implementation output on each run; no known class touches "
             "identifiers any more: D13 D14 D25 were repaired in /repo).",
     "technique": "Coq proof by induction over token trees + executable-spec conformance of the "
                  "implementation output",
 }
 
 THEOREMS = ["C09_prefix_nothing_else", "C09_tok_rel_not_ident", "C09_prefix_none_identity", "C09_prefix_only_after_dot",
-            "C09_prefix_form", "C09_class_exact_rule", "C09_former_witnesses_now_exact"]
+            "C09_prefix_form", "C09_class_exact_rule", "C09_former_witnesses_now_exact", "C09_class_exact_sheet"]
 
 
 def run(res):
